@@ -3,9 +3,11 @@ package c06
 import (
 	"bytes"
 	"context"
+	"errors"
 	"fmt"
 	"math/rand"
 	"sync"
+	"sync/atomic"
 	"time"
 
 	"github.com/plgd-dev/go-coap/v3/message"
@@ -178,3 +180,83 @@ func head(b []byte) []byte {
 }
 
 var _ = vr.Seed
+
+// firstWriteFails: the very first transmission of a confirmable request fails in the socket write (a transient error; the
+// connection stays usable). The call returns the error - and with it the exchange is over: no housekeeping tick may put a
+// copy of that request on the wire afterwards, and its NSTART slot is free for the next request.
+func firstWriteFails(rec *vr.Rec, reps int, seed int64) {
+	rnd := rand.New(rand.NewSource(seed*7793 + 1))
+	for rep := 0; rep < reps; rep++ {
+		maxRetr := 1 + rnd.Intn(3)
+		nstart := uint32(1 + rep%2)
+		ackTimeout := time.Hour
+		c := map[string]any{"scenario": "first-transmission-fails-in-the-write", "max_retransmit": maxRetr, "nstart": nstart}
+		s := sim.NewMemSession()
+		var failNext atomic.Int32
+		s.OnWrite = func([]byte) error {
+			if failNext.Load() > 0 && failNext.Add(-1) >= 0 {
+				return errors.New("injected transient write failure")
+			}
+			return nil
+		}
+		cc := sim.NewUDPConn(s, sim.UDPOpts{Mutate: func(cfg *udpclient.Config) {
+			cfg.TransmissionNStart = nstart
+			cfg.TransmissionAcknowledgeTimeout = ackTimeout
+			cfg.TransmissionMaxRetransmit = uint32(maxRetr)
+		}})
+		failNext.Store(1)
+		ctx, cancel := context.WithTimeout(context.Background(), 10*time.Second)
+		var err error
+		if rep%3 == 2 {
+			req := cc.AcquireMessage(ctx)
+			tok, _ := message.GetToken()
+			_ = req.SetupGet("/failed-write", tok)
+			req.SetType(message.Confirmable)
+			err = cc.WriteMessage(req)
+			cc.ReleaseMessage(req)
+		} else {
+			_, err = cc.Get(ctx, "/failed-write")
+		}
+		cancel()
+		rec.Eval(fmt.Sprintf("first-write-fails|%d|%d|%d", maxRetr, nstart, rep%3))
+		rec.Count("first_write_failure_cases", 1)
+		if err == nil {
+			rec.Violation("C06/write-failure/call-succeeded", "the only transmission failed in the write, yet the call returned no error", c)
+			cc.Close()
+			continue
+		}
+		hi := time.Now()
+		leaked := 0
+		for k := 1; k <= maxRetr+1; k++ {
+			before := s.Len()
+			cc.CheckExpirations(hi.Add(time.Duration(k)*ackTimeout + time.Minute))
+			for _, d := range s.Log()[before:] {
+				if m, perr := ref.ParseUDP(d.Data); perr == nil && m.Type == 0 && m.Code == 1 {
+					leaked++
+				}
+			}
+		}
+		if leaked > 0 {
+			rec.Violation("C06/write-failure/copies-after-the-call-failed", fmt.Sprintf("the call returned %q; afterwards the housekeeping put %d copies of that request on the wire", err, leaked), c)
+			cc.Close()
+			continue
+		}
+		// the slot of the failed request is free again
+		var cleanup []func()
+		for i := 0; i < int(nstart); i++ {
+			n0 := s.Len()
+			done := make(chan struct{})
+			ctx2, cancel2 := context.WithCancel(context.Background())
+			go func() { defer close(done); _, _ = cc.Get(ctx2, "/next") }()
+			cleanup = append(cleanup, func() { cancel2(); <-done })
+			if !s.WaitLen(n0+1, 5*time.Second) {
+				rec.Violation("C06/write-failure/next-request-not-transmitted", fmt.Sprintf("request %d after the failed one was not transmitted within the watchdog (NSTART %d): the failed request still counts as outstanding", i+1, nstart), c)
+				break
+			}
+		}
+		for _, f := range cleanup {
+			f()
+		}
+		cc.Close()
+	}
+}
